@@ -106,6 +106,11 @@ def run(ctx):
     #    (idx < log.topics.len(), or log.topics.get(idx) is Some) whose *absent* edge clears the match flag before
     #    the push decision: positions beyond the log's topic count do not match.
     pushes0 = [c for c in fn.calls() if (c.method or "") == "push" and not fn.is_cleanup(c.bb)]
+    if not pushes0 and any((c.method or "") == "filter" and (c.trait or "").endswith("Iterator") for c in fn.calls() if not fn.is_cleanup(c.bb)):
+        # the same filter written as a predicate: `logs.extend(receipt.logs.into_iter().filter(|log| address_ok && topics_ok))`
+        _predicate_filter_rules(R, F, fn)
+        _positional_conversion(R, F, U)
+        return R
     flag_sw = None
     if pushes0:
         for (a, s_) in control_deps(fn).get(pushes0[0].bb, set()):
@@ -200,6 +205,11 @@ def run(ctx):
             ok = True
     R.ob(ok, "GUARD", fn.where(), "GUARD|get_logs|address", "address filter is not an equality between the log's address and the requested one",
          sample={"rule": "GUARD", "fn": "get_logs", "row": "log.address == filter.address"})
+    _positional_conversion(R, F, U)
+    return R
+
+
+def _positional_conversion(R, F, U):
     # 4. topics_as_b256: positions pass through
     tb = [f for f in F.fns.values() if f.name.endswith("GetLogsFilter::topics_as_b256")]
     if tb:
@@ -253,7 +263,108 @@ def run(ctx):
                                      "later positions are matched against the wrong topic" % (cc.method or "?"),
                                      sample={"rule": "WIRE", "fn": b.name[-50:], "adapter": cc.method})
     R.floor("topic_conversion_adapters", n_conv, 3)
-    return R
+
+
+def _predicate_filter_rules(R, F, fn):
+    """get_logs in predicate style.  The clauses are those of the flag-and-break form, read off a boolean function instead of
+    a flag: a log is kept iff the predicate closure handed to `filter` returns true; the predicate is false whenever the
+    address differs, whenever some filter position does not match (`all` over the enumerated positions), whenever the log has
+    no topic at a non-null position (the absent edge of each presence test can only return false), whenever none of a
+    position's alternatives matches (`any`); every raw index into the log's topics sits behind a presence test."""
+    from terms import forced_result, false_forces_false
+    calls = [c for c in fn.calls() if not fn.is_cleanup(c.bb)]
+    filters = [c for c in calls if (c.method or "") == "filter" and (c.trait or "").endswith("Iterator") and mentions(origin(fn, c.args[0]), ".logs")]
+    keeps = [c for c in calls if (c.method or "") in ("extend", "push", "append", "extend_from_slice", "insert") and "Vec" in ((c.self_ty or "") + (c.target_path or "") + show(origin(fn, c.args[0])))]
+    R.ob(len(filters) == 1 and len(keeps) == 1 and mentions(origin(fn, keeps[0].args[1]), "filter") and mentions(origin(fn, keeps[0].args[1]), ".logs"),
+         "PAIR", fn.where(), "PAIR|get_logs|single-push", "logs reach the result other than through one filter over the receipt's logs (%d filters, %d writes)" % (len(filters), len(keeps)),
+         sample={"rule": "PAIR", "fn": "get_logs", "keep": "extend(receipt.logs.into_iter().filter(predicate))"})
+    if len(filters) != 1 or not keeps:
+        return
+    src = origin(fn, keeps[0].args[1])
+    chain = {x[1].split("::")[-1] for x in calls_in(src)}
+    # between the receipt's logs and the result nothing but the filter: the kept value is the receipt's log, unchanged
+    R.ob(not (chain & {"map", "filter_map", "flat_map", "scan", "zip", "chain", "rev", "skip", "take", "step_by"}), "WIRE", keeps[0].where(), "WIRE|get_logs|pushed-log",
+         "the kept value is transformed on its way to the result (%s)" % sorted(chain & {"map", "filter_map", "flat_map", "scan", "zip", "chain", "rev", "skip", "take", "step_by"}))
+    kid = ((filters[0].func or {}).get("arg_cl") or [None])[0]
+    desc = {g.id: g for g in F.descendants(fn.id)}
+    K = desc.get(kid)
+    R.ob(K is not None, "ANCHOR", fn.where(), "ANCHOR|get_logs|match-flag", "the filter predicate is not a closure of get_logs")
+    if K is None:
+        return
+    bodies = [K] + [g for g in F.descendants(K.id)]
+    # address: an equality between the log's address and the requested one whose `false` makes the predicate false
+    ok_addr, why = False, "no equality between the log's address and the requested one"
+    for g in bodies:
+        for c in g.calls():
+            if g.is_cleanup(c.bb) or (c.method or "") not in ("eq", "ne"):
+                continue
+            a0, a1 = origin(g, c.args[0]), origin(g, c.args[1])
+            if (mentions(a0, "address") and mentions(a1, "contract_address")) or (mentions(a1, "address") and mentions(a0, "contract_address")):
+                if (c.method or "") == "eq":
+                    ok_addr, why = false_forces_false(g, c)
+                else:
+                    ok_addr, why = False, "`!=` form not recognised"
+    R.ob(ok_addr, "GUARD", K.where(), "GUARD|get_logs|address", "address filter: %s" % why, sample={"rule": "GUARD", "fn": "get_logs", "row": "log.address == filter.address, false => not kept"})
+    # positions: one `all` over the enumerated filter positions, monotone in the predicate
+    alls = [(g, c) for g in bodies for c in g.calls() if not g.is_cleanup(c.bb) and (c.method or "") in ("all", "any") and (c.trait or "").endswith("Iterator")
+            and mentions(origin(g, c.args[0]), "enumerate")]
+    ok_pos, why = False, "no `all` over the enumerated filter positions"
+    pos_cl = None
+    if len(alls) == 1 and (alls[0][1].method or "") == "all":
+        ok_pos, why = false_forces_false(*alls[0])
+        pos_cl = desc.get(((alls[0][1].func or {}).get("arg_cl") or [None])[0]) or {g.id: g for g in bodies}.get(((alls[0][1].func or {}).get("arg_cl") or [None])[0])
+    elif alls:
+        why = "positions are combined with %s" % sorted({c.method for _, c in alls})
+    R.ob(ok_pos, "GUARD", K.where(), "GUARD|get_logs|push-under-matched", "a log is kept although a filter position does not match: %s" % why,
+         sample={"rule": "GUARD", "fn": "get_logs", "positions": "all(position matches), false => not kept"})
+    if pos_cl is None:
+        R.floor("topic_presence_tests", 0, 2)
+        return
+    # presence tests in the per-position predicate: the absent edge can only return false
+    LOG_TOPICS = "FixedBytesED<32>"
+    n_idx = 0
+    for (b2, s2, fm, line) in edge_forms(pos_cl):
+        if fm.rel != "<=" or len(fm.lin.terms) != 2:
+            continue
+        lens = [(t, cf) for t, cf in fm.lin.terms.items() if "len(" in show(t) and any(x[1].split("::")[-1] == "len" and LOG_TOPICS in (x[3] or "") for x in calls_in(t))]
+        if lens and lens[0][1] == -1 and fm.lin.k == 1:
+            others = [x for x in pos_cl.succ(b2) if x != s2]
+            n_idx += 1
+            fr = forced_result(pos_cl, others[0]) if others else {"?"}
+            R.ob(fr == {False}, "GUARD", "%s:%s" % (pos_cl.loc["f"], pos_cl.term(b2)["loc"]["l"]), "GUARD|get_logs|absent-topic-no-match:len",
+                 "a log with fewer topics than the filter position can still match: past the `idx >= log.topics.len()` edge the position predicate can return %s" % sorted(str(x) for x in fr),
+                 sample={"rule": "GUARD", "fn": "get_logs", "presence_test": "idx < log.topics.len()", "absent_edge": "returns false"})
+    for c in pos_cl.calls():
+        if (c.method or "") == "get" and not pos_cl.is_cleanup(c.bb) and LOG_TOPICS in (c.self_ty or (c.res or {}).get("full") or c.full or ""):
+            sw = pos_cl.succ(c.bb)[0]
+            t = pos_cl.term(sw)
+            if t["k"] == "switch":
+                none_t = [tb for v, tb in t["targets"] if v == 0] or [t["otherwise"]]
+                n_idx += 1
+                fr = forced_result(pos_cl, none_t[0])
+                R.ob(fr == {False}, "GUARD", c.where(), "GUARD|get_logs|absent-topic-no-match:get",
+                     "a log with fewer topics than the filter position can still match: `log.topics.get(idx)` being None can return %s" % sorted(str(x) for x in fr))
+    R.floor("topic_presence_tests", n_idx, 2)
+    # alternatives of one position: `any`, monotone
+    anys = [c for c in pos_cl.calls() if not pos_cl.is_cleanup(c.bb) and (c.method or "") in ("any", "all") and (c.trait or "").endswith("Iterator")]
+    ok_alt, why = False, "no `any` over a position's alternatives"
+    if len(anys) == 1 and (anys[0].method or "") == "any":
+        ok_alt, why = false_forces_false(pos_cl, anys[0])
+    elif anys:
+        why = "alternatives are combined with %s" % sorted({c.method for c in anys})
+    R.ob(ok_alt, "GUARD", pos_cl.where(), "GUARD|get_logs|alternatives", "a list position: %s" % why,
+         sample={"rule": "GUARD", "fn": "get_logs", "alternatives": "any(topic == alternative), false => position does not match"})
+    # every raw index into the log's topics must sit behind one of the presence tests
+    for g2 in [fn] + list(F.descendants(fn.id)):
+        for c in g2.calls():
+            if g2.is_cleanup(c.bb) or not (c.trait or "").endswith("Index") or (c.method or "") != "index":
+                continue
+            if "SingleOrVec" in (c.self_ty or ""):
+                continue
+            ok = _guarded_index(F, fn, g2, c)
+            R.ob(ok, "GUARD", c.where(), "GUARD|get_logs|topic-index:%s" % ("closure" if g2 is not fn else "body"),
+                 "log.topics[idx] is reached without `idx < log.topics.len()` on the path: a filter position beyond the log's "
+                 "topic count panics instead of not matching", sample={"rule": "GUARD", "fn": g2.name[-50:], "index": "log.topics[idx]", "guard": "idx < len"})
 
 
 def _guarded_index(F, top, g, c):
